@@ -144,6 +144,28 @@ func NewFormatDecoder(r io.Reader) FormatDecoder {
 // Next returns the next format element from the stream. If an element
 // contains a reader, that reader should be used before any subsequent calls as
 // it'll be invalidated then. Returns nil when the end is reached.
+// payloadReader reads the announced number of bytes of a payload. If the stream
+// ends before that, the reader of the file content gets to know.
+type payloadReader struct {
+	r io.Reader
+	n uint64
+}
+
+func (p *payloadReader) Read(b []byte) (int, error) {
+	if p.n == 0 {
+		return 0, io.EOF
+	}
+	if uint64(len(b)) > p.n {
+		b = b[:p.n]
+	}
+	n, err := p.r.Read(b)
+	p.n -= uint64(n)
+	if err == io.EOF && p.n > 0 {
+		err = io.ErrUnexpectedEOF
+	}
+	return n, err
+}
+
 func (d *FormatDecoder) Next() (interface{}, error) {
 	// If we previously returned a reader, make sure we advance all the way in
 	// case the caller didn't read it all.
@@ -256,7 +278,7 @@ func (d *FormatDecoder) Next() (interface{}, error) {
 			return nil, InvalidFormat{"payload size too small"}
 		}
 		size := hdr.Size - 16
-		r := io.LimitReader(d.r, int64(size))
+		r := &payloadReader{r: d.r, n: size}
 		// Record the reader to be read fully on the next iteration if the caller
 		// didn't do it
 		d.advance = r
